@@ -999,87 +999,113 @@ pub fn zero_t(z: &Option<(u8, u8)>) -> Term {
     Term::opt(z.map(|(a, b)| Term::list(vec![Term::nat(a), Term::nat(b)])))
 }
 
+pub fn prefix_set_t(n: &str, p: &PrefixSet) -> Term {
+    let mut es: Vec<(u8, u128, u32, Term)> = Vec::new();
+    for (_a, _m, e) in p.v4.iter() {
+        if let packet::IpNet::V4(x) = &e.net {
+            es.push((4, u32::from(x.addr) as u128, x.mask as u32, Term::tag("p", vec![addr_t(&IpAddr::V4(x.addr)), Term::nat(x.mask), Term::nat(e.min_length), Term::nat(e.max_length)])));
+        }
+    }
+    for (_a, _m, e) in p.v6.iter() {
+        if let packet::IpNet::V6(x) = &e.net {
+            es.push((6, u128::from(x.addr), x.mask as u32, Term::tag("p", vec![addr_t(&IpAddr::V6(x.addr)), Term::nat(x.mask), Term::nat(e.min_length), Term::nat(e.max_length)])));
+        }
+    }
+    es.sort_by(|a, b| (a.0, a.1, a.2).cmp(&(b.0, b.1, b.2)));
+    Term::tag("set", vec![Term::atom("prefix"), Term::atom(n), Term::list(es.into_iter().map(|x| x.3).collect()), zero_t(&p.zero), zero_t(&p.zero6)])
+}
+pub fn neighbor_set_t(n: &str, p: &NeighborSet) -> Term {
+    let es = p
+        .sets
+        .iter()
+        .map(|x| match x {
+            packet::IpNet::V4(x) => Term::tag("n", vec![addr_t(&IpAddr::V4(x.addr)), Term::nat(x.mask)]),
+            packet::IpNet::V6(x) => Term::tag("n", vec![addr_t(&IpAddr::V6(x.addr)), Term::nat(x.mask)]),
+        })
+        .collect();
+    Term::tag("set", vec![Term::atom("neighbor"), Term::atom(n), Term::list(es)])
+}
+pub fn aspath_set_t(n: &str, p: &AsPathSet) -> Term {
+    Term::tag(
+        "set",
+        vec![Term::atom("aspath"), Term::atom(n), Term::list(p.single_sets.iter().map(single_t).collect()), Term::list(p.sets.iter().map(|r| Term::atom(r.as_str())).collect())],
+    )
+}
+pub fn regex_set_t(k: &str, n: &str, sources: Vec<String>) -> Term {
+    Term::tag("set", vec![Term::atom(k), Term::atom(n), Term::list(sources.into_iter().map(Term::atom).collect())])
+}
+
+/// the set object a condition HOLDS (its `Arc`), rendered like a listed set
+pub fn held_set_t(c: &Condition) -> Option<Term> {
+    Some(match c {
+        Condition::Prefix(n, _, s) => prefix_set_t(n, s),
+        Condition::Neighbor(n, _, s) => neighbor_set_t(n, s),
+        Condition::AsPath(n, _, s) => aspath_set_t(n, s),
+        Condition::Community(n, _, s) => regex_set_t("comm", n, s.sets.iter().map(|r| r.as_str().to_string()).collect()),
+        Condition::ExtCommunity(n, _, s) => regex_set_t("ext", n, s.sets.iter().map(|r| r.as_str().to_string()).collect()),
+        Condition::LargeCommunity(n, _, s) => regex_set_t("large", n, s.sets.iter().map(|r| r.as_str().to_string()).collect()),
+        _ => return None,
+    })
+}
+
+/// `(stmt name conds disp acts H)`: H = `=` when every set the statement holds renders exactly like
+/// the set listed under that name, else the held sets
+pub fn stmt_t(s: &Statement, listed_sets: &[Term]) -> Term {
+    let held: Vec<Term> = s.conditions.iter().filter_map(held_set_t).collect();
+    let current = held.iter().all(|h| listed_sets.contains(h));
+    Term::tag(
+        "stmt",
+        vec![
+            Term::atom(s.name.as_ref()),
+            Term::list(s.conditions.iter().map(cond_t).collect()),
+            odisp_t(s.disposition),
+            actions_t(&s.actions),
+            if current { Term::atom("=") } else { Term::list(held) },
+        ],
+    )
+}
+
 pub fn dump(pt: &PolicyTable) -> Term {
     let mut sets: Vec<(u8, String, Term)> = Vec::new();
     for s in pt.iter_defined_sets() {
         match s {
-            DefinedSetRef::Prefix(n, p) => {
-                let mut es: Vec<(u8, u128, u32, Term)> = Vec::new();
-                for (_a, _m, e) in p.v4.iter() {
-                    if let packet::IpNet::V4(x) = &e.net {
-                        es.push((4, u32::from(x.addr) as u128, x.mask as u32, Term::tag("p", vec![addr_t(&IpAddr::V4(x.addr)), Term::nat(x.mask), Term::nat(e.min_length), Term::nat(e.max_length)])));
-                    }
-                }
-                for (_a, _m, e) in p.v6.iter() {
-                    if let packet::IpNet::V6(x) = &e.net {
-                        es.push((6, u128::from(x.addr), x.mask as u32, Term::tag("p", vec![addr_t(&IpAddr::V6(x.addr)), Term::nat(x.mask), Term::nat(e.min_length), Term::nat(e.max_length)])));
-                    }
-                }
-                es.sort_by(|a, b| (a.0, a.1, a.2).cmp(&(b.0, b.1, b.2)));
-                sets.push((0, n.to_string(), Term::tag("set", vec![Term::atom("prefix"), Term::atom(n), Term::list(es.into_iter().map(|x| x.3).collect()), zero_t(&p.zero), zero_t(&p.zero6)])));
-            }
-            DefinedSetRef::Neighbor(n, p) => {
-                let es = p
-                    .sets
-                    .iter()
-                    .map(|x| match x {
-                        packet::IpNet::V4(x) => Term::tag("n", vec![addr_t(&IpAddr::V4(x.addr)), Term::nat(x.mask)]),
-                        packet::IpNet::V6(x) => Term::tag("n", vec![addr_t(&IpAddr::V6(x.addr)), Term::nat(x.mask)]),
-                    })
-                    .collect();
-                sets.push((1, n.to_string(), Term::tag("set", vec![Term::atom("neighbor"), Term::atom(n), Term::list(es)])));
-            }
-            DefinedSetRef::AsPath(n, p) => {
-                sets.push((
-                    2,
-                    n.to_string(),
-                    Term::tag(
-                        "set",
-                        vec![
-                            Term::atom("aspath"),
-                            Term::atom(n),
-                            Term::list(p.single_sets.iter().map(single_t).collect()),
-                            Term::list(p.sets.iter().map(|r| Term::atom(r.as_str())).collect()),
-                        ],
-                    ),
-                ));
-            }
-            DefinedSetRef::Community(n, p) => sets.push((3, n.to_string(), Term::tag("set", vec![Term::atom("comm"), Term::atom(n), Term::list(p.sets.iter().map(|r| Term::atom(r.as_str())).collect())]))),
-            DefinedSetRef::ExtCommunity(n, p) => sets.push((4, n.to_string(), Term::tag("set", vec![Term::atom("ext"), Term::atom(n), Term::list(p.sets.iter().map(|r| Term::atom(r.as_str())).collect())]))),
-            DefinedSetRef::LargeCommunity(n, p) => sets.push((5, n.to_string(), Term::tag("set", vec![Term::atom("large"), Term::atom(n), Term::list(p.sets.iter().map(|r| Term::atom(r.as_str())).collect())]))),
+            DefinedSetRef::Prefix(n, p) => sets.push((0, n.to_string(), prefix_set_t(n, p))),
+            DefinedSetRef::Neighbor(n, p) => sets.push((1, n.to_string(), neighbor_set_t(n, p))),
+            DefinedSetRef::AsPath(n, p) => sets.push((2, n.to_string(), aspath_set_t(n, p))),
+            DefinedSetRef::Community(n, p) => sets.push((3, n.to_string(), regex_set_t("comm", n, p.sets.iter().map(|r| r.as_str().to_string()).collect()))),
+            DefinedSetRef::ExtCommunity(n, p) => sets.push((4, n.to_string(), regex_set_t("ext", n, p.sets.iter().map(|r| r.as_str().to_string()).collect()))),
+            DefinedSetRef::LargeCommunity(n, p) => sets.push((5, n.to_string(), regex_set_t("large", n, p.sets.iter().map(|r| r.as_str().to_string()).collect()))),
         }
     }
     sets.sort_by(|a, b| (a.0, &a.1).cmp(&(b.0, &b.1)));
-    let mut stmts: Vec<(String, Term)> = pt
-        .iter_statements(String::new())
-        .map(|s| {
-            (
-                s.name.to_string(),
-                Term::tag("stmt", vec![Term::atom(s.name.as_ref()), Term::list(s.conditions.iter().map(cond_t).collect()), odisp_t(s.disposition), actions_t(&s.actions)]),
-            )
-        })
-        .collect();
+    let listed_sets: Vec<Term> = sets.into_iter().map(|x| x.2).collect();
+    let mut stmts: Vec<(String, Term)> = pt.iter_statements(String::new()).map(|s| (s.name.to_string(), stmt_t(s, &listed_sets))).collect();
     stmts.sort_by(|a, b| a.0.cmp(&b.0));
     let mut pols: Vec<(String, Term)> = pt
         .iter_policies(String::new())
-        .map(|p| (p.name.to_string(), Term::tag("pol", vec![Term::atom(p.name.as_ref()), Term::list(p.statements.iter().map(|s| Term::atom(s.name.as_ref())).collect())])))
+        .map(|p| {
+            // the statements the policy HOLDS; `=` when each renders exactly like the listed one
+            let held: Vec<Term> = p.statements.iter().map(|s| stmt_t(s, &listed_sets)).collect();
+            let current = held.iter().all(|h| stmts.iter().any(|x| &x.1 == h));
+            (
+                p.name.to_string(),
+                Term::tag(
+                    "pol",
+                    vec![Term::atom(p.name.as_ref()), Term::list(p.statements.iter().map(|s| Term::atom(s.name.as_ref())).collect()), if current { Term::atom("=") } else { Term::list(held) }],
+                ),
+            )
+        })
         .collect();
     pols.sort_by(|a, b| a.0.cmp(&b.0));
     let asg = |d: i32| -> Term {
         match pt.iter_assignments(d).next() {
             None => Term::atom("none"),
-            Some((_, a)) => Term::tag("asg", vec![Term::atom(a.name.as_ref()), disp_t(a.disposition), Term::list(a.policies.iter().map(|p| Term::atom(p.name.as_ref())).collect())]),
+            Some((_, a)) => asg_t(a),
         }
     };
     Term::tag(
         "dump",
-        vec![
-            Term::list(sets.into_iter().map(|x| x.2).collect()),
-            Term::list(stmts.into_iter().map(|x| x.1).collect()),
-            Term::list(pols.into_iter().map(|x| x.1).collect()),
-            asg(1),
-            asg(2),
-        ],
+        vec![Term::list(listed_sets), Term::list(stmts.into_iter().map(|x| x.1).collect()), Term::list(pols.into_iter().map(|x| x.1).collect()), asg(1), asg(2)],
     )
 }
 
@@ -1126,9 +1152,12 @@ pub fn probes(pt: &PolicyTable, dir: i32, routes: &[Route]) -> Term {
     }
 }
 
-/// `(asg name default (policy names))` of a live assignment
+/// `(asg name default (policy names) needs_rpki)` of a live assignment
 pub fn asg_t(a: &PolicyAssignment) -> Term {
-    Term::tag("asg", vec![Term::atom(a.name.as_ref()), disp_t(a.disposition), Term::list(a.policies.iter().map(|p| Term::atom(p.name.as_ref())).collect())])
+    Term::tag(
+        "asg",
+        vec![Term::atom(a.name.as_ref()), disp_t(a.disposition), Term::list(a.policies.iter().map(|p| Term::atom(p.name.as_ref())).collect()), Term::boolean(a.needs_rpki)],
+    )
 }
 
 /// the table-level case kind `(case (probes ..) (ops ..))`
